@@ -10,6 +10,7 @@
 #include "cpu.h"
 #include "epoch.h"
 #include "garbage_collection.h"
+#include "verif_hook.h"
 
 namespace yakushima {
 
@@ -21,32 +22,49 @@ public:
      * @return false fail.
      */
     bool gain_the_right() {
+        YAKUSHIMA_VERIF_PRE(k_load, o_running, &running_);
         bool expected(running_.load(std::memory_order_acquire));
+        YAKUSHIMA_VERIF_POST(k_load, o_running, &running_, expected, 1);
         for (;;) {
             if (expected) { return false; }
+            YAKUSHIMA_VERIF_PRE(k_cas, o_running, &running_);
             if (running_.compare_exchange_weak(expected, true,
                                                std::memory_order_acq_rel,
                                                std::memory_order_acquire)) {
+                YAKUSHIMA_VERIF_POST(k_cas, o_running, &running_, true, 1);
                 return true;
             }
+            YAKUSHIMA_VERIF_POST(k_cas, o_running, &running_, expected, 0);
         }
     }
 
     [[nodiscard]] Epoch get_begin_epoch() const {
+#ifdef YAKUSHIMA_VERIF
+        YAKUSHIMA_VERIF_PRE(k_load, o_begin_epoch, &begin_epoch_);
+        Epoch ve_ = begin_epoch_.load(std::memory_order_acquire);
+        YAKUSHIMA_VERIF_POST(k_load, o_begin_epoch, &begin_epoch_, ve_, 1);
+        return ve_;
+#else
         return begin_epoch_.load(std::memory_order_acquire);
+#endif
     }
 
     [[nodiscard]] garbage_collection& get_gc_info() { return gc_info_; }
 
     [[nodiscard]] bool get_running() const {
+        YAKUSHIMA_VERIF_PRE(k_load, o_running, &running_);
         return running_.load(std::memory_order_acquire);
     }
 
     void set_begin_epoch(const Epoch epoch) {
+        YAKUSHIMA_VERIF_PRE(k_store, o_begin_epoch, &begin_epoch_);
+        YAKUSHIMA_VERIF_POST(k_store, o_begin_epoch, &begin_epoch_, epoch, 1);
         begin_epoch_.store(epoch, std::memory_order_relaxed);
     }
 
     void set_running(const bool tf) {
+        YAKUSHIMA_VERIF_PRE(k_store, o_running, &running_);
+        YAKUSHIMA_VERIF_POST(k_store, o_running, &running_, tf, 1);
         running_.store(tf, std::memory_order_relaxed);
     }
 
